@@ -295,6 +295,17 @@ def prove_accepted_registered(src_root, ex: Explorer):
     ex.run(path, 'accepted-registered')
 
 
+def prove_accepted_failures(src_root, ex: Explorer):
+    """An accepted connection whose initialisation fails (undecodable first frame, read error, EOF, unexpected message) ends CLOSED - by
+    the read contract or by an explicit disconnect - and only that connection is touched.  This is C02.on_peer_accepted.isolation[*];
+    it is discharged here as well: without it a dead accepted connection stays in the registry for ever."""
+    from contracts import C02
+    C02.prove_on_peer_accepted(src_root, ex)
+    for ob in ex.obligations:
+        if ob.name.startswith('C02.on_peer_accepted.isolation'):
+            ob.name = 'C10.accepted.failed-init-closes' + ob.name[len('C02.on_peer_accepted.isolation'):]
+
+
 def prove_registry(src_root, ex: Explorer):
     def removal(ctx: Ctx):
         it = mk(src_root, ctx)
@@ -325,7 +336,7 @@ def prove_registry(src_root, ex: Explorer):
 
 
 def items(src_root, tier):
-    return [('set_state', None), ('connect', None), ('disconnect', None), ('after', None), ('accept', None), ('registry', None), ('accepted', None)]
+    return [('set_state', None), ('connect', None), ('disconnect', None), ('after', None), ('accept', None), ('registry', None), ('accepted', None), ('accepted-failures', None)]
 
 
 def run_item(src_root, item, tier):
@@ -334,7 +345,7 @@ def run_item(src_root, item, tier):
     kind, arg = item
     try:
         {'set_state': prove_set_state, 'connect': prove_connect, 'disconnect': prove_disconnect, 'after': prove_after_closed,
-         'accept': prove_accept, 'registry': prove_registry, 'accepted': prove_accepted_registered}[kind](src_root, ex)
+         'accept': prove_accept, 'registry': prove_registry, 'accepted': prove_accepted_registered, 'accepted-failures': prove_accepted_failures}[kind](src_root, ex)
     except Unsupported as e:
         res.errors.append(f'{kind}: unsupported: {e}')
     collect(res, ex)
